@@ -551,7 +551,8 @@ def run(ctx):
             a=stats.get("hidden_ahead", 0), b=sum(1 for _, a in progs_b if hidden_ahead(a)),
             c=sum(1 for _, a in progs_c if hidden_ahead(a))),
         refsem_calibration=dict(corpus_stories=ncal, failing=[b["story"] for b in calib_bad]),
-        feature_histogram=feats, programs=dict(a=len(res_a), b=len(progs_b), c=len(progs_c)),
+        feature_histogram=feats, programs=len(res_a) + len(progs_b) + len(progs_c),
+        programs_by_stream=dict(a=len(res_a), b=len(progs_b), c=len(progs_c)),
         wall_parts_s=tm))
 
     # ---- verdict
